@@ -13,7 +13,7 @@ pub const NAME_POOL: &[&str] = &["a", "b", "name", "id", "record", "opt", "servi
     "nat", "null", "reserved", "empty", "import", "composite_query", "a b", "x-y", "1a", "", "héllo", "日本", "\"q\"", "back\\slash", "new\nline", "tab\t",
     "*/", "${x}", "_", "_0", "__", "A", "Self", "self", "fn", "class", "return", "async", "await", "let", "var", "function", "constructor", "prototype"];
 thread_local! { static NAMES: HashMap<u32, &'static str> = NAME_POOL.iter().map(|n| (candid::idl_hash(n), *n)).collect(); }
-fn quote(s: &str) -> String {
+pub fn quote(s: &str) -> String {
     let bare = !s.is_empty() && s.is_ascii() && s.chars().enumerate().all(|(i, c)| if i == 0 { c.is_ascii_alphabetic() || c == '_' } else { c.is_ascii_alphanumeric() || c == '_' })
         && !crate::ops::c15::KEYWORDS.contains(&s);
     if bare { s.to_string() } else { crate::ops::c15::quote_name(s) }
@@ -43,10 +43,10 @@ pub fn program(env: &Env, actor: &Option<T>) -> String {
     if let Some(a) = actor { s.push_str(&format!("service : {};\n", match a { T::Serv(ms) => methods(ms), o => did(o) })); }
     s
 }
-fn actor_from(a: &str) -> Option<T> { if a == "-" { None } else { Some(T::from_sx(&sx::parse(a))) } }
-fn actor_sx(a: &Option<T>) -> String { a.as_ref().map(|t| t.sx()).unwrap_or("-".into()) }
+pub fn actor_from(a: &str) -> Option<T> { if a == "-" { None } else { Some(T::from_sx(&sx::parse(a))) } }
+pub fn actor_sx(a: &Option<T>) -> String { a.as_ref().map(|t| t.sx()).unwrap_or("-".into()) }
 
-fn load(text: &str) -> Result<(TypeEnv, Option<candid::types::Type>), String> {
+pub fn load(text: &str) -> Result<(TypeEnv, Option<candid::types::Type>), String> {
     let ast = IDLProg::from_str(text).map_err(|e| format!("parse: {}", e))?;
     let mut env = TypeEnv::new();
     let actor = check_prog(&mut env, &ast).map_err(|e| format!("check: {}", e))?;
